@@ -130,6 +130,36 @@ theorem overlong_regex_reported (cfg : Cfg) (s : St) (pat : Bytes) (p : Option P
     (checkRegex cfg s pat p).errors = s.errors ++ [⟨.regexTooLong, p⟩] := by
   unfold checkRegex; simp [h, St.err]
 
+/-- **pattern constant over the length limit**: reported where it is defined, and its text is not
+    kept — so constants built from constants cannot double in size from one definition to the next
+    (every recorded fragment is within the limit: `recorded_fragments_bounded`) -/
+theorem overlong_fragment_reported (cfg : Cfg) (sy : Sym) (e : Node) (s : St) (h1 : (evalPattern cfg.fmtFloat s e).1 ≠ [])
+    (h2 : (evalPattern cfg.fmtFloat s e).1.length > cfg.maxRegexLen) :
+    (recordPattern cfg sy e s).errors = s.errors ++ (evalPattern cfg.fmtFloat s e).2 ++ [⟨.regexTooLong, sy.pos⟩] ∧
+      (recordPattern cfg sy e s).patterns = s.patterns := by
+  unfold recordPattern
+  have : (evalPattern cfg.fmtFloat s e).1.isEmpty = false := by
+    cases h : (evalPattern cfg.fmtFloat s e).1 with
+    | nil => exact absurd h h1
+    | cons a as => rfl
+  simp [this, h2, St.err]
+
+theorem recorded_fragments_bounded (cfg : Cfg) (sy : Sym) (e : Node) (s : St)
+    (h : ∀ p ∈ s.patterns, p.2.length ≤ cfg.maxRegexLen) :
+    ∀ p ∈ (recordPattern cfg sy e s).patterns, p.2.length ≤ cfg.maxRegexLen := by
+  unfold recordPattern
+  simp only
+  split
+  · exact h
+  · split
+    · exact h
+    · next hl =>
+      intro p hp
+      simp only [List.mem_cons] at hp
+      rcases hp with rfl | hp
+      · simpa using Nat.le_of_not_lt hl
+      · exact h p hp
+
 /-- **invalid regular expression** (whatever the library's syntax is) -/
 theorem invalid_regex_reported (cfg : Cfg) (s : St) (pat : Bytes) (p : Option Pos)
     (hl : ¬ pat.length > cfg.maxRegexLen) (h : cfg.groups pat = none) :
